@@ -163,6 +163,18 @@ def validate_traces(pairs, invariants, wd, module="TraceContract", batch_events=
             res["transitions"] += gen
             res["events"] += dist - 1
             for line in out.splitlines():
+                if line.startswith('"COUNTS|'):
+                    t = line.strip().strip('"').split("|")
+                    names = ["procOk", "withTaus", "ramped", "constRatio", "setOk", "setRej", "chunkOk",
+                             "chunkRej", "badFaulty", "rtSafe", "peak", "flush"]
+                    c = res.setdefault("counts", dict.fromkeys(names, 0))
+                    for nm, v in zip(names, t[2:]):
+                        c[nm] += int(v)
+                    continue
+                if line.startswith('"PAIRS|'):
+                    t = line.strip().strip('"').split("|")
+                    res.setdefault("pairs", []).append((t[1], int(t[2]), int(t[3])))
+                    continue
                 m = VIOL_RE.match(line.strip())
                 if m:
                     t = m.group(2).split("|")
@@ -201,3 +213,17 @@ def write_evidence(prop, tier, seed, level, coverage, wall, violations, assumpti
     with open(os.path.join(VERIF, "evidence", prop + ".json"), "w") as f:
         json.dump(ev, f, indent=1)
     return ev
+
+
+def pair_stats(res, cov, what="twin"):
+    """vacuity guard for twin validations: how many observation pairs were actually compared"""
+    pairs = res.get("pairs", [])
+    withrel = [p for p in pairs if p[2] >= 0]
+    total = sum(p[1] for p in withrel)
+    empty = sum(1 for p in withrel if p[2] == 0)
+    cov["twin_pairs_compared"] = total
+    cov["twin_scripts_with_relations"] = len(withrel)
+    cov["twin_scripts_with_an_empty_relation"] = empty
+    if withrel and (total == 0 or empty * 5 > len(withrel) * 2):
+        raise ToolError("vacuous %s validation: %d of %d scripts have a relation that compared nothing (total pairs %d)"
+                        % (what, empty, len(withrel), total))
